@@ -173,6 +173,15 @@ def run(tier='quick', seed=0):
             rows.append(rows[0])
         one_omega(rows)
         one_simplex(rows, as_upper=tuple(rng.random() < 0.4 for _ in rows))
+    # Omega only: many systems over 3-4 variables with coefficients of magnitude 1 and 2 (several elimination rounds,
+    # shadows that meet rows with nearly opposite variable parts; tuples differing in -1 / -2 collide in CPython's hash)
+    rng3 = random.Random('%s/omega-small-coefficients' % seed)
+    for it in range(2500 if tier == 'quick' else 20000):
+        n = rng3.randint(3, 4)
+        m = rng3.randint(4, 7)
+        rows = [tuple(rng3.choice([-2, -2, -1, -1, 0, 1, 1, 2]) for _ in range(n)) + (rng3.randint(-6, 6),)
+                for _ in range(m)]
+        one_omega(rows)
     seen = set()
     uniq = []
     for v in violations:
@@ -183,7 +192,7 @@ def run(tier='quick', seed=0):
     return {'name': 'c16_linear', 'rule': 'all systems of 2 constraints over 2 variables with coefficients in '
             '[-1,1] (thorough [-2,2]) and constants in [-2,2]; random systems with <= 5 variables, <= 8 constraints, '
             'coefficients in [-3,3], with paired and duplicate rows; all ordered triples of bounds on one variable; random '
-            'families of parallel rows (several bounds on one linear form); oracle = z3 (LIA / LRA) and own evaluation of '
+            'families of parallel rows (several bounds on one linear form); 2500 (thorough 20000) Omega-only systems over 3-4 variables with coefficients of magnitude <= 2; oracle = z3 (LIA / LRA) and own evaluation of '
             'witnesses; 5 s per call; non-trivial = distinct (procedure, system)', 'evaluations': evals,
             'distinct_nontrivial': len(distinct), 'omega_verdicts': verdicts, 'crashes_not_counted': len(crashes), 'crash_samples': crashes[:4], 'samples': samples,
             'violations': uniq[:12], 'n_violations': len(uniq), 'all_violations': len(violations),
